@@ -80,19 +80,19 @@ func Tokens() []Tok {
 		run("NoteOff0~", 0x80, 0x2F, 0x00), // data bytes that look like an end-of-track tail
 		meta("Text0", 0x01, nil, 0),
 		meta("Text127", 0x01, fill(127, 1), 0),
-		meta("Text128", 0x01, fill(128, 2), 0), // two-byte length
+		meta("Text128", 0x01, fill(128, 2), 0),     // two-byte length
 		meta("TextPadded", 0x01, []byte("xyz"), 2), // non-minimal length 80 03... (81 would change the value)
 		meta("Unknown60", 0x60, []byte{0x01, 0x02}, 0),
 		meta("SeqSpecific", 0x7F, []byte{0x00, 0x00, 0x41}, 0),
 		meta("Tempo", 0x51, []byte{0x07, 0xA1, 0x20}, 0),
 		meta("SeqNo0", 0x00, nil, 0),
 		meta("SeqNo2", 0x00, []byte{0x00, 0x01}, 0),
-		sysex("SysExOpen", 0xF0, []byte{0x43, 0x12}, 0),          // F0 without terminating F7
-		sysex("Continuation", 0xF7, []byte{0x01, 0xF7}, 0),       // F7 continuation closing a packet sequence
-		sysex("EscapeRealtime", 0xF7, []byte{0xF8}, 0),           // escape wrapping a real-time byte
-		sysex("EscapeSysCommon", 0xF7, []byte{0xF3, 0x01}, 0),    // escape wrapping song select
-		sysex("SysExEmpty", 0xF0, nil, 0),                        // length 0
-		sysex("SysEx200", 0xF0, append(fill(199, 5), 0xF7), 0),   // payload > 127 bytes
+		sysex("SysExOpen", 0xF0, []byte{0x43, 0x12}, 0),        // F0 without terminating F7
+		sysex("Continuation", 0xF7, []byte{0x01, 0xF7}, 0),     // F7 continuation closing a packet sequence
+		sysex("EscapeRealtime", 0xF7, []byte{0xF8}, 0),         // escape wrapping a real-time byte
+		sysex("EscapeSysCommon", 0xF7, []byte{0xF3, 0x01}, 0),  // escape wrapping song select
+		sysex("SysExEmpty", 0xF0, nil, 0),                      // length 0
+		sysex("SysEx200", 0xF0, append(fill(199, 5), 0xF7), 0), // payload > 127 bytes
 		meta("ChannelPrefix", 0x20, []byte{0x05}, 0),
 		meta("KeySig", 0x59, []byte{0xFD, 0x01}, 0), // payload bytes >= 0x80
 		run("Poly0~", 0xA0, 0x3D, 0x12),
